@@ -89,6 +89,11 @@ var detDocs = []string{
 	`{ item(id: 1) { namx } }`, `{ item(ix: 1) { id } }`, `{ pets { barks } }`, `{ named { barks meows } }`, `{ pets { howls } named { meows } }`,
 	`{ box(width: "wide", height: "tall") box(width: "wide", height: "tall") }`, `{ box(height: "tall", width: "wide", depth: 1, weight: 2) box(height: "tall", width: "wide", depth: 1, weight: 2) }`,
 	`{ dog { name @nope @nop } pets { ... on Cat { barks } ... on Dog { meows } } }`, `query($a: Int, $b: Int, $c: Int) { dog { name } }`,
+	// several operations sharing fragments whose variables only some of them declare (the tree is annotated per operation)
+	`query First { ...Sel } query Second($id: Int!) { ...Sel } fragment Sel on Query { item(id: $id) { id } }`,
+	`query Second($id: Int!) { ...Sel } query First { ...Sel } fragment Sel on Query { item(id: $id) { id } }`,
+	`query A($id: Int!) { ...Sel } query B($id: String) { ...Sel } query C { ...Sel ...Sel } fragment Sel on Query { item(id: $id) { id ...N } } fragment N on Item { name @skip(if: $flag) }`,
+	`query A { box(width: $w) } query B($w: Int = 2, $unused: Int) { box(width: $w, height: $h) } query C($h: Int) { ...Bx } fragment Bx on Query { box(height: $h) }`,
 	`{ dog { ...A ...B } } fragment A on Dog { ...B } fragment B on Dog { ...A }`, `{ a: dog { name } a: item(id: 1) { name } b: dog { n: name } b: dog { n: barks } }`,
 }
 
